@@ -49,6 +49,7 @@
 import GIVerif.Lemmas.GirCodec
 import GIVerif.Lemmas.GirMembers
 import GIVerif.Gen.GirVocabRW
+import GIVerif.Gen.GirReaderState
 
 namespace GIVerif.GirCodec
 open GIVerif.Py
@@ -395,5 +396,44 @@ def exCb : Callable :=
 def mCb : Member := { fieldOf "cb" .unknown with body := .callback exCb, version := some "1.2".toList }
 example : [mData, mAnonU, mLen, mCb].all (wfMember nsFoo) = true ∧
     isOk (writeMembers nsFoo [mData, mAnonU, mLen, mCb]) = true := by decide
+
+/-! ### the reader object: reading a document does not depend on what the reader read before -/
+
+open GIVerif.Gen.GirReaderState in
+/-- pinned to the statements of `GIRParser.__init__` / `parse_tree` / `_parse_api` (table re-extracted on every run):
+    every attribute that reading a document reads or changes is reassigned by `parse_tree` before `_parse_api`. -/
+theorem C07_reader_state_pinned : perDocument.all (fun a => parseTreeResets.contains a) = true := by decide
+
+open GIVerif.Gen.GirReaderState in
+theorem hReset_table (s : HState) : hReset parseTreeResets s = hInit := by
+  have h1 : parseTreeResets.contains "_includes" = true := by decide
+  have h2 : parseTreeResets.contains "_pkgconfig_packages" = true := by decide
+  have h3 : parseTreeResets.contains "_c_includes" = true := by decide
+  have h4 : parseTreeResets.contains "_doc_format" = true := by decide
+  simp only [hReset, h1, h2, h3, h4, ↓reduceIte, hInit]
+
+open GIVerif.Gen.GirReaderState in
+/-- state reset: what `parse` returns for a document depends on that document only, whatever state earlier
+    documents left in the reader -/
+theorem C07_reader_state_reset (s s' : HState) (doc : List HItem) :
+    parseHeader parseTreeResets s doc = parseHeader parseTreeResets s' doc := by
+  simp only [parseHeader, hReset_table]
+
+open GIVerif.Gen.GirReaderState in
+/-- a history of parses on ONE reader returns, for each document, what a FRESH reader returns for it -/
+theorem C07_history_independent (s : HState) (docs : List (List HItem)) :
+    runHistory parseTreeResets s docs = docs.map (parseHeader parseTreeResets hInit) := by
+  induction docs generalizing s with
+  | nil => rfl
+  | cons d ds ih =>
+    simp only [runHistory, List.map_cons, ih]
+    rw [C07_reader_state_reset s hInit d]
+
+-- non-vacuity: without the reset (`resets = []`) the second document inherits the first one's header
+example : runHistory [] hInit [[.incl "GObject".toList "2.0".toList, .package "a-1.0".toList], []]
+    ≠ [[.incl "GObject".toList "2.0".toList, .package "a-1.0".toList], []].map (parseHeader [] hInit) := by decide
+example : (runHistory GIVerif.Gen.GirReaderState.parseTreeResets hInit
+    [[.incl "GObject".toList "2.0".toList, .docFormat "gi-docgen".toList], [.cInclude "a.h".toList]]).map (·.docFormat)
+    = ["gi-docgen".toList, sUnknown] := by decide
 
 end GIVerif.GirCodec
